@@ -18,6 +18,10 @@ def run(ck):
         g = dict(g); g["orc"] = 0
         g["calls"] = [pcall(a, f, extra=False) for a in COVERS for f in ("list", "dict")]
         groups.append(g)
+    for g in gen.gscale_families(ck.rng, 100 if q else 3000, cover=True):       # magnitudes around 2^31 (values <= 21 times a common factor of about 1e8)
+        g = dict(g); g["orc"] = 0; g.pop("fmts")
+        g["calls"] = [pcall(a, f, extra=False) for a in COVERS for f in ("list", "dict")]
+        groups.append(g); ck.cat("common_factor_1e8")
     ck.rule = ("TLC enumerates every arrival sequence of <=5 positive values up to C+2 for C in {4,5,6,7} (items larger than a bin, inputs that cover "
                "nothing, repeats included); decreasing, two-thirds and three-quarters executed on each as a plain list and as a dict; plus seeded families "
                "up to 40 items around the class thresholds. non-trivial = distinct (sequence, C) with >=2 items")
